@@ -1666,7 +1666,7 @@ Proof.
         - cbn [fst]. intros _. apply Hun. unfold is_loaded in El. rewrite G1 in El.
           change (i_loaded it1) with (i_loaded it) in El. destruct (i_loaded it); [discriminate|reflexivity]. }
       destruct (state_update_msgs (fst s1) i (i_state it) new) as [w2 m2]. cbn [fst] in *.
-      destruct (state_fold_props (i_state it) new (state_desc (S (length (w_items w2))) w2 (child_items it false)) w2 m2) as (D3 & S3 & F3).
+      destruct (state_fold_props (i_state it) new (state_desc (length (child_items it false) + S (length (w_items w2))) w2 (child_items it false)) w2 m2) as (D3 & S3 & F3).
       match goal with |- context[let (_, _) := ?X in _] => destruct X as [w3 m3] end.
       cbn [fst] in *. intros He. pose proof (S3 He) as E2.
       split; [eapply RT_DF; [exact D3|now apply A]|].
@@ -1680,7 +1680,7 @@ Proof.
     pose proof (state_update_run_only (fst s1) i (i_state it) new) as RO.
     pose proof (FC_state_update_msgs (fst s1) i (i_state it) new) as F2.
     destruct (state_update_msgs (fst s1) i (i_state it) new) as [w2 m2]. cbn [fst] in *.
-    destruct (state_fold_props (i_state it) new (state_desc (S (length (w_items w2))) w2 (child_items it false)) w2 m2) as (D3 & S3 & F3).
+    destruct (state_fold_props (i_state it) new (state_desc (length (child_items it false) + S (length (w_items w2))) w2 (child_items it false)) w2 m2) as (D3 & S3 & F3).
     match goal with |- context[let (_, _) := ?X in _] => destruct X as [w3 m3] end.
     cbn [fst] in *.
     split; [|eapply FC_J; [exact F3|]; eapply FC_J; [exact F2|apply R1]].
